@@ -44,6 +44,13 @@ fn cb_bump(lex: &mut Lexer<K1>) {
     if lex.remainder().first() == Some(&b'!') { lex.bump(1); }
 }
 
+/// bumps inside a callback that then skips: the skipped region includes the bumped byte
+fn cb_bump_skip(lex: &mut Lexer<K1>) -> Skip {
+    observe(lex);
+    if lex.remainder().first() == Some(&b'!') { lex.bump(1); }
+    Skip
+}
+
 #[derive(Logos, Debug, PartialEq, Clone)]
 #[logos(utf8 = false, extras = CbLog, error = KErr)]
 pub enum K1 {
@@ -62,12 +69,13 @@ pub enum K1 {
     #[regex("m[0-9]", cb_unit)] M,
     #[regex("n[0-9]", cb_bump)] N,
     #[token("!")] Bang,
+    #[regex("o[0-9]", cb_bump_skip)] O,
 }
 // ids: variant * 10 + payload
 fn k1_vid(t: &K1) -> u8 {
     match t {
         K1::A(d) => 10 + d, K1::B => 20, K1::C(d) => 30 + d, K1::D(d) => 40 + d, K1::E(d) => 50 + d, K1::F(d) => 60 + d,
-        K1::G => 70, K1::H => 80, K1::I => 90, K1::J => 100, K1::K => 110, K1::L => 120, K1::M => 130, K1::N => 140, K1::Bang => 150,
+        K1::G => 70, K1::H => 80, K1::I => 90, K1::J => 100, K1::K => 110, K1::L => 120, K1::M => 130, K1::N => 140, K1::Bang => 150, K1::O => 160,
     }
 }
 fn k1_eid(e: &KErr) -> u8 { match e { KErr::Dflt => 0, KErr::Odd => 1, KErr::Two => 2 } }
@@ -90,7 +98,8 @@ pub fn k1_decide(k: u8, inp: &[u8], s: usize, e: usize) -> Decision {
         11 => if d % 2 == 0 { Decision::Emit(110) } else { Decision::Skip },
         12 => match d % 3 { 0 => Decision::Emit(20), 1 => Decision::Skip, _ => Decision::Error(err_id(d % 4)) },
         13 => Decision::Emit(130),
-        _ => if e < inp.len() && inp[e] == b'!' { Decision::EmitBumped(140, 1) } else { Decision::Emit(140) },
+        14 => if e < inp.len() && inp[e] == b'!' { Decision::EmitBumped(140, 1) } else { Decision::Emit(140) },
+        _ => if e < inp.len() && inp[e] == b'!' { Decision::SkipBumped(1) } else { Decision::Skip },
     }
 }
 const DIGIT: P = P::Class(&[(b'0', b'9')]);
@@ -101,6 +110,7 @@ pub static K1_DEF: Def = Def {
         kp!(b"a", 1), kp!(b"b", 2), kp!(b"c", 3), kp!(b"d", 4), kp!(b"e", 5), kp!(b"f", 6), kp!(b"g", 7),
         kp!(b"h", 8), kp!(b"i", 9), kp!(b"j", 10), kp!(b"k", 11), kp!(b"l", 12), kp!(b"m", 13), kp!(b"n", 14),
         Pat { p: P::Lit(b"!"), prio: 2, act: Act::Tok(150) },
+        kp!(b"o", 15),
     ],
 };
 corpus_impl!(K1, bytes, K1_DEF, |t| k1_vid(&t), |e| k1_eid(&e), |x| x.summary());
@@ -115,9 +125,17 @@ fn sk_skip(_lex: &mut Lexer<K2>) -> Skip { Skip }
 fn sk_result_unit(lex: &mut Lexer<K2>) -> Result<(), u8> { if lex.slice()[1] == b'0' { Ok(()) } else { Err(1) } }
 fn sk_result_skip(lex: &mut Lexer<K2>) -> Result<Skip, u8> { if lex.slice()[1] == b'0' { Ok(Skip) } else { Err(1) } }
 
+/// user callbacks that happen to be called `skip` (not logos::skip): they must run like any other callback
+pub mod named {
+    use super::*;
+    pub fn skip(lex: &mut Lexer<K2>) -> Result<(), u8> { if lex.slice()[1] == b'0' { Ok(()) } else { Err(1) } }
+    pub mod unit { use super::super::*; pub fn skip(lex: &mut Lexer<K2>) -> bool { lex.slice()[1] == b'0' } }
+}
+
 #[derive(Logos, Debug, PartialEq, Clone)]
 #[logos(utf8 = false)]
 #[logos(error(K2Err, k2_make_err))]
+#[logos(skip("t[0-9]", named::skip))]
 #[logos(skip("p", sk_unit))]
 #[logos(skip("q", sk_skip))]
 #[logos(skip("r[0-9]", sk_result_unit))]
@@ -125,12 +143,14 @@ fn sk_result_skip(lex: &mut Lexer<K2>) -> Result<Skip, u8> { if lex.slice()[1] =
 pub enum K2 {
     #[token("ab")] Ab,
     #[regex("x[0-9]", |lex| lex.slice()[1] == b'0')] X,
+    #[regex("u[0-9]", named::unit::skip)] U,
 }
 pub fn k2_decide(k: u8, inp: &[u8], s: usize, _e: usize) -> Decision {
     match k {
         1 => Decision::Skip,
         2 => Decision::Skip,
-        3 | 4 => if inp[s + 1] == b'0' { Decision::Skip } else { Decision::Error(250) },
+        3 | 4 | 6 => if inp[s + 1] == b'0' { Decision::Skip } else { Decision::Error(250) },
+        7 => if inp[s + 1] == b'0' { Decision::Emit(3) } else { Decision::DefaultError },
         // a `false` from a pattern callback is the *default* error, which the error callback makes from the span (2 bytes)
         _ => if inp[s + 1] == b'0' { Decision::Emit(2) } else { Decision::DefaultError },
     }
@@ -145,7 +165,9 @@ pub static K2_DEF: Def = Def {
         Pat { p: P::Cat(&[P::Lit(b"s"), DIGIT]), prio: 4, act: Act::Cb(4) },
         Pat { p: P::Lit(b"ab"), prio: 4, act: Act::Tok(1) },
         Pat { p: P::Cat(&[P::Lit(b"x"), DIGIT]), prio: 4, act: Act::Cb(5) },
+        Pat { p: P::Cat(&[P::Lit(b"t"), DIGIT]), prio: 4, act: Act::Cb(6) },
+        Pat { p: P::Cat(&[P::Lit(b"u"), DIGIT]), prio: 4, act: Act::Cb(7) },
     ],
 };
 // error ids: Made(n) -> n (length of the error span), FromSkip -> 250, Dflt -> 0
-corpus_impl!(K2, bytes, K2_DEF, |t| match t { K2::Ab => 1, K2::X => 2 }, |e| match e { K2Err::Dflt => 0, K2Err::Made(n) => n, K2Err::FromSkip => 250 }, |_x| (0, true, 0, 0));
+corpus_impl!(K2, bytes, K2_DEF, |t| match t { K2::Ab => 1, K2::X => 2, K2::U => 3 }, |e| match e { K2Err::Dflt => 0, K2Err::Made(n) => n, K2Err::FromSkip => 250 }, |_x| (0, true, 0, 0));
